@@ -508,8 +508,10 @@ impl<'a> Interpreter<'a> {
                                         self.get_type_by_name(&func_name)
                                     {
                                         match self.resolve_args(args) {
-                                            Ok(arg_values) => stack
-                                                .push_val(construct_type(type_name, arg_values)),
+                                            Ok(arg_values) => {
+                                                self.no_clock_from_null(type_name, &arg_values)?;
+                                                stack.push_val(construct_type(type_name, arg_values))
+                                            }
                                             Err(err) => stack.push_val(self.failed_argument(err)?),
                                         }
                                     } else {
@@ -531,6 +533,7 @@ impl<'a> Interpreter<'a> {
                                     self.no_clock_while_folding(&type_name, args.len())?;
                                     match self.resolve_args(args) {
                                         Ok(arg_values) => {
+                                            self.no_clock_from_null(&type_name, &arg_values)?;
                                             stack.push_val(construct_type(&type_name, arg_values))
                                         }
                                         Err(err) => stack.push_val(self.failed_argument(err)?),
@@ -652,6 +655,18 @@ impl<'a> Interpreter<'a> {
     // compiler must not fold such a call into a constant.
     fn no_clock_while_folding(&self, callee: &str, n_args: usize) -> CelResult<()> {
         if self.is_compile_time() && (callee == "now" || (callee == "timestamp" && n_args == 0)) {
+            return Err(CelError::runtime("the clock is read when the program runs"));
+        }
+        Ok(())
+    }
+
+    // The overload dispatch takes a null argument for a missing one, so
+    // `timestamp(null)` reads the clock like `timestamp()` does.
+    fn no_clock_from_null(&self, type_name: &str, args: &[CelValue]) -> CelResult<()> {
+        if self.is_compile_time()
+            && type_name == "timestamp"
+            && args.iter().all(|a| matches!(a, CelValue::Null))
+        {
             return Err(CelError::runtime("the clock is read when the program runs"));
         }
         Ok(())
